@@ -127,7 +127,9 @@ def generic_run(ctx, compare, oracle_props, micro_prefixes=None, known_ids=(), e
         if "blocks" in i and len(i["blocks"]) > 1:
             distinct.add(hash(text))
         bad_oracle = []
-        run_oracle = oracle_props and (meta.get("kf_free") or meta["stream"] in ("micro",) or d)
+        # comparisons of an address field with a run-time value are the tool's documented heuristic (outside the claims)
+        runtime_cmp = meta["stream"] == "micro" and "/Receiv" in name
+        run_oracle = oracle_props and (meta.get("kf_free") or meta["stream"] in ("micro",) or d) and not runtime_cmp
         if run_oracle and "ctx" in i:
             envs = oracle.make_envs(text, ctx["rng"], sz["envs"] if not d else 4 * sz["envs"])
             v, st = oracle.check_program(text, i, envs)
